@@ -399,7 +399,7 @@ MANIFEST_TEXT = {
                 "trace is exactly the selected leaves in source order, each once, the skipped branch of ?: contributes nothing, nothing else of the state changes. Correspondence: thousands of probe-leaf expression trees over all call shapes through "
                 "model and interpreter (trace compared); oracle: independent reference evaluator predicting the probe order.",
         "note": "Trusted: Lean kernel; fidelity of the interpreter model (differential, 0 disagreements required); harness reference evaluator.",
-        "technique": "Lean 4 proof (defining equations of the evaluator) + differential trace correspondence",
+        "technique": "Lean 4 proof (defining equations of the evaluator, induction on expression trees; decide +kernel over the regenerated operand preamble of the operators) + differential trace correspondence",
         "design_ref": "DESIGN.md section 6 (C07)",
     },
     "C09": {
@@ -412,7 +412,7 @@ MANIFEST_TEXT = {
                 "model and interpreter; oracle: independent reference evaluator predicting probe trace and final error.",
         "note": "Trusted: Lean kernel; fidelity of the interpreter model (differential, 0 disagreements required); the harness reference "
                 "evaluator; fragment F0.",
-        "technique": "Lean 4 proof (unfolding lemmas + induction over the defer list) over an executable interpreter model + differential correspondence",
+        "technique": "Lean 4 proof (unfolding lemmas + induction over the defer list) over an executable interpreter model + differential correspondence + regenerated control flow of try / catch / finally and runDefers (decide +kernel)",
         "design_ref": "DESIGN.md section 6 (C09)",
     },
     "C08": {
@@ -425,7 +425,7 @@ MANIFEST_TEXT = {
                 "interpreter; oracle: an independent reference evaluator in the harness predicts the probe trace.",
         "note": "Trusted: Lean kernel; fidelity of the interpreter model (differential, 0 disagreements required); the harness reference "
                 "evaluator; fragment F0.",
-        "technique": "Lean 4 proof (induction on fuel, grind) over an executable interpreter model + differential correspondence",
+        "technique": "Lean 4 proof (induction on fuel, grind) over an executable interpreter model + differential correspondence + regenerated control flow of the branch and loop functions (decide +kernel)",
         "design_ref": "DESIGN.md section 6 (C08)",
     },
     "C04": {
@@ -473,7 +473,7 @@ MANIFEST_TEXT = {
                 "implementation-side algebraic oracle (a==b vs b==a, != vs !(==), in, switch, <= && >=).",
         "note": "Trusted: Lean kernel; FEqSymm / FEqLeGe hypotheses about IEEE floats; the model mirrors vm.equal (validated by the "
                 "correspondence each run). Model follows the repaired equal (fix commit 41294bd).",
-        "technique": "Lean 4 proof (structural case analysis + fuel induction) + differential correspondence",
+        "technique": "Lean 4 proof (structural case analysis + fuel induction; decide +kernel over the regenerated decision structure of equal and its call sites) + differential correspondence",
         "design_ref": "DESIGN.md section 6 (C06)",
     },
     "C05": {
@@ -486,7 +486,7 @@ MANIFEST_TEXT = {
                 "and interpreter; oracle: native Go int64/float64 arithmetic.",
         "note": "Trusted: Lean kernel; that the model's functions mirror the Go code (validated by the correspondence on every run); "
                 "abstract float ops (FOps) instantiated by IEEE binary64 in the driver; the cache extractor (closed shapes).",
-        "technique": "Lean 4 proof (BitVec algebra, omega) + regenerated cache facts + differential correspondence",
+        "technique": "Lean 4 proof (BitVec algebra, omega) + regenerated cache facts and operator arms (decide +kernel against the tables next to the model) + differential correspondence",
         "design_ref": "DESIGN.md section 6 (C05)",
     },
     "C17": {
